@@ -1,12 +1,53 @@
-From Coq Require Import List Bool.
-From Texel Require Import Ctl.Uci Ctl.Engine Ctl.Dec Ctl.CtlSpec Ctl.Reach Ctl.CtlInv.
+From Coq Require Import ZArith List Bool Arith Lia.
+From Texel Require Import Workers.Workers Workers.WorkersLemmas Workers.WorkersInv Workers.WorkersInvProofs.
 Import ListNotations.
-Definition cnt (f : pst -> bool) g := length (filter f (reachset g)).
-Time Eval vm_compute in (
-  cnt (fun p => stopping (fst p)) false, cnt (fun p => quitting (fst p)) false,
-  cnt (fun p => uci_blocked (fst p)) false, cnt (fun p => snd p) false,
-  cnt (fun p => crashed (fst p)) false, cnt (fun p => crashed (fst p)) true,
-  cnt (fun p => exited (fst p)) true, cnt (fun p => Nat.eqb (outstanding (fst p)) 2) true,
-  cnt (fun p => head_reads_options (fst p)) true,
-  fold_left Nat.max (map (fun p => rank (fst p)) (reachset true)) 0,
-  fold_left Nat.max (map (fun p => esim 63 (fst p)) (reachset true)) 0).
+Section P.
+Variable N : nat.
+Variable parent : tid -> option tid.
+Hypothesis Htree : tree_ok N parent.
+Notation InvE := (InvE N parent).
+Notation lstep := (lstep N parent).
+Notation children := (children N parent).
+Notation helper := (helper N).
+Notation npending := (npending N parent).
+
+Ltac phase_facts I :=
+  let ph := fresh "ph" in let E1 := fresh "Eph" in let E2 := fresh "Eeq" in
+  destruct (e_phase _ _ _ I) as (ph & E1 & E2);
+  match goal with Hpc : pc (th _ 0) = _ |- _ => rewrite Hpc in E1 end; simpl in E1;
+  try discriminate; injection E1 as <-; simpl in E2.
+Ltac bar_facts :=
+  match goal with Hb : (wc _ =? 0)%Z && negb (self _) = true |- _ =>
+    let Hw := fresh "Hw" in let Hs := fresh "Hs" in
+    apply andb_prop in Hb; destruct Hb as [Hw Hs]; apply Z.eqb_eq in Hw; apply negb_true_iff in Hs end.
+
+Lemma stop_head_lag : forall s c p r, InvE s -> helper c -> parent c = Some p -> qu s c = CStop :: r ->
+  se (th s c) = ae (th s 0) /\ se (th s p) = S (ae (th s 0)) /\ se (th s 0) = S (ae (th s 0)) /\
+  stops r = 0 /\ owes (pc (th s p)) c = false.
+Proof.
+  intros s c p r I Hc Hp Hq.
+  pose proof (e_s1 _ _ _ I c p Hc Hp) as S1. rewrite Hq, stops_cons in S1. simpl in S1.
+  destruct (parent_le N parent Htree c p Hc Hp) as (HpN & _).
+  destruct (e_g1 _ _ _ I p HpN). destruct (e_g1 _ _ _ I c (helper_le N _ Hc)).
+  destruct (inv_se0 N parent s I) as (? & ? & ? & ?).
+  destruct (owes (pc (th s p)) c); simpl in S1; repeat split; try lia; auto.
+Qed.
+
+Lemma step_g1 : forall s lb s', InvE s -> lstep s lb = Some s' ->
+  forall t, t <= N -> ae (th s' 0) <= se (th s' t) /\ se (th s' t) <= se (th s' 0).
+Proof.
+  intros s lb s' I H t Ht.
+  pose proof (e_g1 _ _ _ I t Ht) as G1.
+  pose proof (e_g1 _ _ _ I) as G1a.
+  step_inv_fine H; crunch; try lia.
+  all: try match goal with
+    | Hq : qu ?s0 (S ?c) = CStop :: _, Hp : parent (S ?c) = Some ?p, Hl : Nat.leb (S ?c) N = true |- _ =>
+        destruct (stop_head_lag s0 (S c) p _ I (helper_leb N _ Hl) Hp Hq) as (? & ? & ? & ? & ?); lia
+    end.
+  all: phase_facts I.
+  all: bar_facts.
+  - lia.
+  - assert (helper t) by (unfold WorkersInv.helper; lia).
+    destruct (barrier_all N parent Htree s I Hw t t (le_n _) H). lia.
+Qed.
+End P.
